@@ -194,6 +194,21 @@ func checkC05(c *Ctx) {
 	}
 	// ---- R4 padding
 	rulePaddingNonInterference(c, "C05-R4", decoderFuncs(P, "base"))
+	// ---- R5 "too short is rejected with an error", not with a crash: every bit read of the two decoders
+	// lies inside the buffer under the guards in force (arithmetic obligations of the C07 engine)
+	{
+		var roots []*ssa.Function
+		for _, pkg := range []string{"rtcm/type1005", "rtcm/type1006"} {
+			if f := P.Func(pkg, "GetMessage"); f != nil {
+				roots = append(roots, f)
+			}
+		}
+		if len(roots) == 2 {
+			runBoundsLite(c, "C05-R5", roots, nil)
+		} else {
+			c.Unresolved("C05-R5", "rtcm/type1005.GetMessage / rtcm/type1006.GetMessage")
+		}
+	}
 	c.MinInstances("C05-R1", 23)
 	c.MinInstances("C05-R2", 8)
 	c.MinInstances("C05-R3", 8)
